@@ -8,6 +8,11 @@ PY = "/venv/bin/python"
 
 # property -> (category, technique, level text, level note, design ref)
 TABLE = {
+    "C11": ("exploration",
+            "Hypothesis-generated node sets, key corpora and add/remove/lookup histories; all insertion permutations enumerated (n<=6); differential against an independent statement of the rendezvous rule; metamorphic relations (permutation, history, removal/addition disruption); cross-process digest comparison",
+            "Placement is compared key by key with an independent reference of the published rule over generated node sets, under every insertion order (all n! up to 6 nodes), after arbitrary add/remove histories with lookups interleaved, with tie-forcing hashes, from equivalent address spellings, and across interpreters with different PYTHONHASHSEED. Sampling, not proof; the tie and order logic is small enough that short generated cases reach all of it.",
+            "Trusts vlib/refhash.py; keys or node names beyond Latin-1 are only checked for order/history independence.",
+            "DESIGN.md 3/C11"),
     "C14": ("exploration",
             "bounded-exhaustive enumeration + Hypothesis random strings, differential against an independent reference MurmurHash3 (Python, and C via ctypes)",
             "Every string up to length 3-5 over representative alphabets x 4 boundary seeds is enumerated, every length 0..64 and random seeds are sampled; each result is compared with an independent MurmurHash3_x86_32 validated on 24 published vectors. Right level: the function is pure and tiny, the bug classes (masking, tail, rotation, sign) are all reachable by short inputs.",
